@@ -194,14 +194,26 @@ func scalarFromWire(t, s string) any {
 // wireNode builds a DOM node from wire form using only constructors whose behaviour
 // does not depend on the code under test's path handling (Children map is filled through
 // AddValue with plain names; callers make sure names carry no index suffix when that matters).
+// sharedNil is the decoder's shared nil leaf (every decoded null and every padding slot is this one
+// node object); obtained through the public API.
+var sharedNil = dom.Builder().FromMap(map[string]interface{}{"x": nil}).Child("x")
+
+// wireNode builds a DOM node from wire form.  How null leaves are built is a deterministic function
+// of the document's content (so a case replays identically): all fresh `LeafNode(nil)`, all the
+// decoder's shared nil leaf, or shared inside lists and fresh under keys — documents in the wild
+// contain both kinds, and code that treats them differently must not change observable behaviour.
 func wireNode(w W) dom.Node {
+	return wireNodeM(w, int(hash64([]byte(canon(w)))%3), false)
+}
+
+func wireNodeM(w W, nullMode int, inList bool) dom.Node {
 	switch x := w.(type) {
 	case []any:
 		// built through the variadic constructor from a slice with spare capacity that is
 		// scribbled over afterwards: a list must not alias its constructor's arguments
 		items := make([]dom.Node, len(x), len(x)+3)
 		for i, e := range x {
-			items[i] = wireNode(e)
+			items[i] = wireNodeM(e, nullMode, true)
 		}
 		lb := dom.ListNode(items...)
 		for i := range items {
@@ -214,12 +226,15 @@ func wireNode(w W) dom.Node {
 			cb := dom.Builder().Container()
 			keys := sortedKeys(c)
 			for _, k := range keys {
-				cb.AddValue(k, wireNode(c[k]))
+				cb.AddValue(k, wireNodeM(c[k], nullMode, false))
 			}
 			return cb
 		}
 		t, _ := x["t"].(string)
 		s, _ := x["v"].(string)
+		if t == "nil" && (nullMode == 1 || (nullMode == 2 && inList)) {
+			return sharedNil
+		}
 		return dom.LeafNode(scalarFromWire(t, s))
 	}
 	panic(fmt.Sprintf("wireNode: unexpected %T", w))
